@@ -300,6 +300,7 @@ class ResizeRegistrationLemma(Contract):
     props = ("C04",)
     level = "property"
     no_crosscheck = True
+    no_replay = True       # nothing to run on the replay side: a pure arithmetic lemma
     dims = ()
 
     def inputs(self, c, case):
